@@ -163,3 +163,28 @@ Definition delta (p0 : Z) : Z -> Q := fun s => if s =? p0 then 1%Q else 0%Q.
 (* the Gaussian profile of the code along a diagonal axis *)
 Definition gprofile (E : Q -> Q) (step sigma : Q) : Z -> Q :=
   fun d => kval E (half_normsq step sigma d).
+
+(* ------------------------------------------------------------------ *)
+(* fwhm.Resels: exact determinant of the coordmap's affine (cofactor
+   expansion along the first row), used to check self.wedge              *)
+Definition drop_col (j : nat) (row : list Q) : list Q := firstn j row ++ skipn (S j) row.
+
+Fixpoint qdet_fuel (fuel : nat) (M : list (list Q)) : Q :=
+  match fuel with
+  | O => 1%Q
+  | S f =>
+    match M with
+    | [] => 1%Q
+    | r :: rest =>
+      fold_right Qplus 0%Q
+        (map (fun j => ((if Nat.even j then 1 else -1) * nth j r 0 * qdet_fuel f (map (drop_col j) rest))%Q)
+             (seq 0 (length r)))
+    end
+  end.
+Definition qdet (M : list (list Q)) : Q := Qred (qdet_fuel (S (length M)) M).
+
+(* wedge = |det|^(1/D) as returned by the implementation (a float, read as a rational):
+   wedge > 0 and wedge^D = |det| up to the relative tolerance eps of the float power *)
+Definition wedge_ok (M : list (list Q)) (D : positive) (w eps : Q) : bool :=
+  let d := Qabs (qdet M) in
+  Qle_bool (Qabs (Qpower w (Zpos D) - d)) (eps * d) && negb (Qle_bool w 0).
